@@ -1,3 +1,4 @@
+COMP = 'mla/src/layers/compress.rs'
 POS = 'mla/src/layers/position.rs'
 RAW = 'mla/src/layers/raw.rs'
 ENC = 'mla/src/layers/encrypt.rs'
@@ -21,4 +22,9 @@ MUTANTS = [
      'edits': [(RAW, "    fn write(&mut self, buf: &[u8]) -> io::Result<usize> {\n        self.inner.write(buf)\n    }", "    fn write(&mut self, buf: &[u8]) -> io::Result<usize> {\n        self.inner.write(buf)?;\n        Ok(buf.len())\n    }")]},
     {'id': 'c13-benign-explicit-match', 'props': ['C13'], 'expect': 'silent',
      'edits': [(POS, "        let written = self.inner.write(buf)?;\n        self.pos += written as u64;\n        Ok(written)", "        match self.inner.write(buf) {\n            Ok(written) => {\n                self.pos += written as u64;\n                Ok(written)\n            }\n            Err(e) => Err(e),\n        }")]},
+    # reverts of fix d0a4c4e (zero-count decode step returned as Ok(0))
+    {'id': 'c13-failsafe-decoder-returns-zero-again', 'props': ['C13'], 'expect': 'fire', 'keys': ['decoder-count-may-be-zero'],
+     'edits': [(COMP, "                                // Not enough input to produce a byte yet: fetch more,\n                                // `Ok(0)` would mean end of data\n                                continue;\n", "                                return Ok(0);\n")]},
+    {'id': 'c13-failsafe-success-returns-zero-again', 'props': ['C13'], 'expect': 'fire', 'keys': ['decoder-count-may-be-zero'],
+     'edits': [(COMP, "                            if output_offset == 0 && !buf.is_empty() {\n                                // Nothing produced by the end of this stream: go on\n                                // with the next one, `Ok(0)` would mean end of data\n                                continue;\n                            }\n", "")]},
 ]
